@@ -39,5 +39,8 @@ Scen2 ==
              : x \in {Cir(V2(0, 0), A0(6)), Cu(Cir(V2(0, 0), A0(6)), Sq), An(Cir(V2(0, 0), A0(6)), Tri(V2(-10, -4), V2(6, -8), V2(2, 10))), Sq}}
     \cup {[Base EXCEPT !.g = 16, !.pre = <<Pre("uniform", 50), Pre("grid", 100)>>] @@ [expr |-> x, law |-> "uniform", N |-> 16384, log |-> "boxes", check |-> "uniform2"]
              : x \in {Cir(V2(0, 0), A0(6)), Un(Sq, Cir(V2(4, -2), A0(4)))}}
-ASSUME ndJsonSerialize(IOEnv.OUT_FILE, SetToSeq(Scen \cup Scen2)) /\ PrintT(<<"SCENARIOS", Cardinality(Scen \cup Scen2)>>)
+\* ---- the share of the points that falls into the FIRST operand of a union (overlapping operands): raw points are logged
+Scen3 == {Base @@ [expr |-> x, law |-> "uniform", N |-> 8192, log |-> "pts", check |-> "share"] : x \in {y \in Bool2 : y.k = "union"}}
+         \cup {[Base EXCEPT !.rows = Rows2, !.judge = j, !.row = Rows2[j]] @@ [expr |-> UnK, law |-> "uniform", N |-> 4096, log |-> "pts", check |-> "share"] : j \in 1..2}
+ASSUME ndJsonSerialize(IOEnv.OUT_FILE, SetToSeq(Scen \cup Scen2 \cup Scen3)) /\ PrintT(<<"SCENARIOS", Cardinality(Scen \cup Scen2 \cup Scen3)>>)
 ==========================================================================
